@@ -13,6 +13,7 @@ mod json;
 mod known;
 mod models;
 mod ops;
+mod port;
 mod props;
 mod runner;
 mod scen;
@@ -187,7 +188,7 @@ fn check(id: &str, tier: Tier) -> i32 {
             violations += 1;
             println!("  violation in run {} of {}: {} — {}", f.index, scn.name(), f.violation.class, f.violation.detail);
             let orig_len = f.tape.len();
-            let (small, execs) = shrink(scn.as_ref(), tier, &f.violation.class, f.tape);
+            let (small, execs) = shrink(scn.as_ref(), tier, f.index, &f.violation.class, f.tape);
             let (path, v, _hash) = write_replay(scn.as_ref(), tier, seed, f.index, orig_len, execs, &small);
             println!("  minimised tape: {} -> {} entries in {} executions; class {}", orig_len, small.len(), execs, v.class);
             // Replay the minimised tape in a fresh process; it must fail the same way.
